@@ -1,6 +1,6 @@
-import Mkts.Model.Agg
+import Mkts.Model.Uda
 /-! Helper lemmas for C23 (folds of the accumulators; the abstract gap specification). -/
-namespace Mkts.Agg
+namespace Mkts.Uda
 open Mkts.Float
 
 /-! ## order on non-NaN single-precision values -/
@@ -298,4 +298,4 @@ theorem bigGaps_eq_spec (thr : Int) (es : List Int) (h : FloatExactOn thr es) :
       rw [e1, hp.2]
       by_cases hc : b - a > thr <;> simp [specGaps, pairs, hc]
 
-end Mkts.Agg
+end Mkts.Uda
